@@ -1,7 +1,7 @@
 """C05 Spectral binning is an overlap-weighted mean of the native spectrum."""
 import ast
 
-from sa.helpers import (the_return, mkflow, spec, code, one, calls, bind_call, param_env,
+from sa.helpers import (guard_is, same_cond, the_return, mkflow, spec, code, one, calls, bind_call, param_env,
                         loop_matches, fmt, atom_of, unparse, unalloc, call_kw)
 from sa.index import AnalysisError
 from sa.algebra import RF, Slice, p_atom
@@ -126,8 +126,8 @@ def flux_init(ix, R):
         if gotw is None or not fa.tab.equal(gotw, wantw):
             why2.append('self._wngrid_width ends as %s' % (fmt(fa, gotw)[:300] if gotw is not None else None))
         rs = fa.of('raise')
-        okr = len(rs) == 1 and rs[0].guards and fa.tab.equal(
-            rs[0].guards[-1].rf, spec(fa, 'len(w) != len(g[p])', b)) if rs else False
+        okr = len(rs) == 1 and rs[0].guards and guard_is(
+            fa, rs[0].guards[-1], spec(fa, 'len(w) != len(g[p])', b), True) if rs else False
         if not okr:
             why2.append('a width array of another length than the grid is not rejected')
         R.check('1.init.final', 'ALG', site,
@@ -301,7 +301,7 @@ def flux_bindown(ix, R):
     for w_ in wantes:
         if tab.equal(es.value, w_):
             wante = w_
-    g_ok = all((g.early and g.exit == {'continue'}) or any(tab.equal(g.rf, spec(fl, 'Er is not None', dict(b, Er=c)))
+    g_ok = all((g.early and g.exit == {'continue'}) or any(guard_is(fl, g, spec(fl, 'Er is not None', dict(b, Er=c)), True)
                               for c in cands + [b['E']]) for g in es.guards)
     sl = es.target_ast.slice
     lastaxis = isinstance(sl, ast.Tuple) and len(sl.elts) == 2 and \
